@@ -261,8 +261,9 @@ class Gen:
             child_res = [(ch["name"], r["name"], r["type"]) for ch in children for r in ch["resources"]]
             if child_res and rng.random() < 0.35:
                 cn, rn, rt = rng.choice(child_res)
+                # (C16: ancillae and sizes stay non-negative, so the extra term is a size expression)
                 val = E.op("add", E.op("mul", E.num(rng.randint(2, 3)), E.sym(f"{cn}.{rn}")),
-                           gen_expr(rng, scope_l, 1) if scope_l else E.num(1))
+                           (gen_size_expr(rng, scope_l) if self.qubits else gen_expr(rng, scope_l, 1)) if scope_l else E.num(1))
                 # the routine's own definition may carry another type than the child's resource of the same name
                 resources.append({"name": rn, "type": rt if rng.random() < 0.6 else rng.choice(["other", "additive", "qubits"]), "value": val})
             if scope_l and rng.random() < 0.3 and not under_rep and not any(x["name"] == "own" for x in resources):
